@@ -1,0 +1,34 @@
+//go:build verif
+
+// Contracts for the verifier in /verif (comment-only file; compiled only with -tags verif).
+
+package tls
+
+// hostnameInSNI (upstream, handshake_client.go) is not verified: it is represented by the
+// uninterpreted function snihost; only "the result is not longer than the argument" is assumed.
+//@ uf snihost(Str) Str
+//@ trusted func hostnameInSNI
+//@   pure
+//@   ensures ret == snihost(name)
+//@   ensures len(ret) <= len(name)
+
+//@ func (*SNIExtension).Len
+//@   property C08
+//@   let h = snihost(e.ServerName)
+//@   requires e != nil
+//@   pure
+//@   ensures empty: len(h) == 0 ==> ret == 0
+//@   ensures full: len(h) != 0 ==> ret == 9 + len(h)
+
+//@ func (*SNIExtension).Read
+//@   property C08
+//@   let h = snihost(e.ServerName)
+//@   let n = len(h)
+//@   requires e != nil
+//@   requires zeroed: len(b) >= 9 + n ==> b[6] == 0
+//@   modifies b[0..9+n]
+//@   ensures empty: n == 0 ==> ret0 == 0 && ret1 == io.EOF && unchanged(b)
+//@   ensures short: n != 0 && len(b) < 9 + n ==> ret0 == 0 && ret1 == io.ErrShortBuffer && unchanged(b)
+//@   ensures ok: n != 0 && len(b) >= 9 + n ==> ret0 == 9 + n && ret1 == io.EOF
+//@   ensures hdr: n != 0 && len(b) >= 9 + n ==> b[0] == 0 && b[1] == 0 && b[2]*256+b[3] == (n+5) % 65536 && b[4]*256+b[5] == (n+3) % 65536 && b[6] == 0 && b[7]*256+b[8] == n % 65536
+//@   ensures body: n != 0 && len(b) >= 9 + n ==> forall j in 0..n: b[9+j] == h[j]
